@@ -19,6 +19,8 @@ type c52Names struct {
 	unknown                    string
 }
 
+var c52MutExceptions = map[string]string{}
+
 func init() {
 	real := c52Names{typesRel: "sql/types", spatialRel: "sql/expression/function/spatial", writeEWKB: "WriteEWKBHeader", writeWKB: "WriteWKBHeader",
 		iface: "GeometryValue", evalFn: "EvalGeomFromWKB", evalArg: 3, unknown: "WKBUnknown"}
@@ -35,7 +37,10 @@ func init() {
 			"(F1) every typed ST_*FROMWKB function passes to EvalGeomFromWKB the id that the value type of its declared SQL type writes (the generic one passes WKBUnknown). " +
 			"A violated instance makes ST_GeomFromWKB(ST_AsWKB(g)) (or the stored form of g) come back as a different type or be rejected.",
 		NotCovered: "coordinate data round trip, byte order, SRID handling, WKT and GeoJSON codecs, spatial index vs predicate agreement",
-		Run:        func(c *Ctx) { runC52(c, real, 7) },
+		Run: func(c *Ctx) {
+			runC52(c, real, 7)
+			runC52Mut(c, c52MutCfg{typesRel: real.typesRel, iface: real.iface, floor: 0, minTypes: 7, exc: c52MutExceptions})
+		},
 		Fixture: func(c *Ctx, fx2 *Prog) {
 			expectFixture(c, fx2, "c52: wrong element header, wrong reader arm, missing id without error default, wrong guard, wrong typed constructor must be reported",
 				[]string{
